@@ -43,24 +43,70 @@ theorem c10_prefix_ignored (env : Env) (henv : env.tgt = .ignored) (bs : Bytes) 
   · exact .inl h1
   · exact .inr ⟨c, hp, finish_eof_clean_ignored env henv s c hfin⟩
 
-/-- **C10, `Value` target**, every configuration and source. The statement carries exactly the
-    exception the proof forces: a prefix that *ends in a complete number literal whose value is not
-    a finite f64* fails with `NumberOutOfRange` (Syntax) — e.g. `1` followed by 400 zeros, although
-    `…e-395` would be fine. This is inherent to the number-range rule and is recorded as an open
-    known finding; everything else is `Eof` at the end of the prefix. -/
-theorem c10_prefix_value_partial (env : Env) (henv : env.tgt = .value) (bs : Bytes) (k : Nat) (v : JV)
-    (h : parseTop env bs = .ok v) :
-    (∃ v', parseTop env (bs.take k) = .ok v') ∨
-    (∃ c, parseTop env (bs.take k) = .err c (bs.take k).length ∧
-      (classify c = .eof ∨ c = .NumberOutOfRange)) := by
-  rcases prefix_fails_only_at_end env bs k v h with h1 | ⟨s, c, hfin, hp⟩
-  · exact .inl h1
-  · exact .inr ⟨c, hp, finish_eof_clean_value env henv s c hfin⟩
-
-/-- with `arbitrary_precision` numbers are never converted while parsing into `Value`, so the
-    exception disappears: plain `Eof`. -/
+/-- with `arbitrary_precision` numbers are never converted while parsing into `Value` -/
 theorem numValue_ap_ok (env : Env) (hap : env.cfg.ap = true) (n : NumSt) : ∃ v, numValue env n = .ok v := by
   unfold numValue; simp [hap]
+
+/-- **C10, `Value` target, exactly.** Every prefix of an accepted text is accepted, or fails at its end
+    with an `Eof`-classified error, or — the single exception, characterised on the machine state —
+    fails at its end with `NumberOutOfRange` *and* the state reached after the prefix (`feed`) is a
+    number state whose literal is complete (phase `zero`, `int`, `frac` or `exp`: the prefix ends in a
+    complete RFC 8259 number) and whose conversion `numValue` fails (its value is not a finite f64).
+    That is the known finding "prefix = complete out-of-range number" (`1` followed by 400 zeros,
+    although `…e-395` would be fine) and nothing else. -/
+theorem c10_prefix_value_exact (env : Env) (henv : env.tgt = .value) (bs : Bytes) (k : Nat) (v : JV)
+    (h : parseTop env bs = .ok v) :
+    (∃ v', parseTop env (bs.take k) = .ok v') ∨
+    (∃ c, parseTop env (bs.take k) = .err c (bs.take k).length ∧ classify c = .eof) ∨
+    (parseTop env (bs.take k) = .err .NumberOutOfRange (bs.take k).length ∧
+      ∃ s j n, feed env init 0 (bs.take k) = .ok (s, j) ∧ s.mode = .num n ∧
+        (n.phase = .zero ∨ n.phase = .int ∨ n.phase = .frac ∨ n.phase = .exp) ∧
+        numValue env n = .error .NumberOutOfRange) := by
+  have hsplit : bs = bs.take k ++ bs.drop k := (List.take_append_drop k bs).symm
+  have h' := h
+  unfold parseTop at h' ⊢
+  rw [hsplit, run_append] at h'
+  have hp := run_eq_feed_finish env init 0 (bs.take k)
+  cases hf : feed env init 0 (bs.take k) with
+  | error e => obtain ⟨c, j⟩ := e; rw [hf] at h'; cases h'
+  | ok p =>
+    obtain ⟨s', j⟩ := p
+    rw [hf] at hp
+    have hj := feed_idx _ _ _ _ _ _ hf
+    cases hfin : finish env s' with
+    | ok v' => left; exact ⟨v', by rw [hp]; simp [hfin]⟩
+    | error c =>
+      have hrun : run env init 0 (bs.take k) = .err c (bs.take k).length := by rw [hp]; simp [hfin, hj]
+      rcases finish_err_value_exact env henv s' c hfin with hc | ⟨hc, n, hmode, hphase, hnum⟩
+      · exact .inr (.inl ⟨c, hrun, hc⟩)
+      · subst hc
+        exact .inr (.inr ⟨hrun, s', j, n, rfl, hmode, hphase, hnum⟩)
+
+/-- **The exception is real and is exactly that.** Whenever the machine, having read `xs` without error,
+    is in a number state with a complete literal whose conversion fails, `xs` is rejected with
+    `NumberOutOfRange` at its end. -/
+theorem c10_number_exception (env : Env) (henv : env.tgt = .value) (xs : Bytes) (s : St) (j : Nat) (n : NumSt)
+    (hf : feed env init 0 xs = .ok (s, j)) (hmode : s.mode = .num n)
+    (hphase : n.phase = .zero ∨ n.phase = .int ∨ n.phase = .frac ∨ n.phase = .exp)
+    (hnum : numValue env n = .error .NumberOutOfRange) :
+    parseTop env xs = .err .NumberOutOfRange xs.length := by
+  unfold parseTop
+  rw [run_eq_feed_finish, hf]
+  have hj := feed_idx _ _ _ _ _ _ hf
+  simp [finish_number_out_of_range env henv s n hmode hphase hnum, hj]
+
+/-- **C10, `Value` target under `arbitrary_precision`: pure `Eof`.** Numbers are kept as text, no
+    conversion can fail, so the exception cannot occur: every prefix of an accepted text is accepted or
+    fails with an `Eof`-classified error at the end of the prefix. -/
+theorem c10_prefix_value_ap (env : Env) (henv : env.tgt = .value) (hap : env.cfg.ap = true) (bs : Bytes)
+    (k : Nat) (v : JV) (h : parseTop env bs = .ok v) :
+    (∃ v', parseTop env (bs.take k) = .ok v') ∨
+    (∃ c, parseTop env (bs.take k) = .err c (bs.take k).length ∧ classify c = .eof) := by
+  rcases c10_prefix_value_exact env henv bs k v h with h1 | h2 | ⟨_, s, j, n, _, _, _, hnum⟩
+  · exact .inl h1
+  · exact .inr h2
+  · obtain ⟨v', hv⟩ := numValue_ap_ok env hap n
+    rw [hv] at hnum; cases hnum
 
 /-- non-vacuity: the hypotheses are met by `[1, {"a": null}]` (bytes) cut after `[1, {"a"`, and the
     excluded case is real: `10…0` (400 zeros) fails with NumberOutOfRange although `…e-395` parses. -/
@@ -69,5 +115,41 @@ def doc : Bytes := [0x5b, 0x31, 0x2c, 0x20, 0x7b, 0x22, 0x61, 0x22, 0x3a, 0x20, 
 example : ∃ v, parseTop envV doc = .ok v := ⟨_, rfl⟩
 example : parseTop envV (doc.take 8) = .err .EofWhileParsingObject 8 := rfl
 example : parseTop { envV with tgt := .ignored } (doc.take 2) = .err .EofWhileParsingList 2 := rfl
+
+/-- the excluded case, on bytes: `1` followed by 400 zeros and `e-395` is accepted (it is 100000.0), its
+    401-byte prefix — a complete integer literal of value 10^400 — is rejected with `NumberOutOfRange`
+    at its end; so by `c10_prefix_value_exact` the machine is then in a complete-number state whose
+    conversion fails. Cut one byte later (`…0e`) it is `Eof` again. -/
+def bigDoc : Bytes := [0x31] ++ List.replicate 400 0x30 ++ [0x65, 0x2d, 0x33, 0x39, 0x35]
+
+example : (parseTop envV bigDoc).isOk (.num (.float 0x40f86a0000000000)) = true ∧
+    (parseTop envV (bigDoc.take 401)).isErr .NumberOutOfRange 401 = true ∧
+    (parseTop envV (bigDoc.take 402)).isErr .EofWhileParsingValue 402 = true := by
+  refine ⟨by decide +kernel, by decide +kernel, by decide +kernel⟩
+
+example (v : JV) (h : parseTop envV bigDoc = .ok v)
+    (he : parseTop envV (bigDoc.take 401) = .err .NumberOutOfRange (bigDoc.take 401).length) :
+    ∃ s j n, feed envV init 0 (bigDoc.take 401) = .ok (s, j) ∧ s.mode = .num n ∧
+      (n.phase = .zero ∨ n.phase = .int ∨ n.phase = .frac ∨ n.phase = .exp) ∧
+      numValue envV n = .error .NumberOutOfRange := by
+  rcases c10_prefix_value_exact envV rfl bigDoc 401 v h with ⟨v', hv⟩ | ⟨c, hc, hcl⟩ | ⟨_, hx⟩
+  · rw [hv] at he; cases he
+  · rw [hc] at he; cases he; cases hcl
+  · exact hx
+
+/-- under `arbitrary_precision` the same document and the same cut: the prefix is simply accepted (the
+    literal is kept as text), and `[1e400]` cut before the bracket is `Eof` -/
+def envAp : Env := { cfg := { ap := true }, src := .slice, tgt := .value }
+
+example : (match parseTop envAp (bigDoc.take 401) with | .ok _ => true | .err _ _ => false) = true := by
+  decide +kernel
+
+example : parseTop envAp [0x5b, 0x31, 0x65, 0x34, 0x30, 0x30, 0x5d] = .ok (.arr [.num (.lit [0x31, 0x65, 0x34, 0x30, 0x30])]) ∧
+    parseTop envAp ([0x5b, 0x31, 0x65, 0x34, 0x30, 0x30, 0x5d].take 6) = .err .EofWhileParsingList 6 := ⟨rfl, rfl⟩
+
+example : (∃ v', parseTop envAp ([0x5b, 0x31, 0x65, 0x34, 0x30, 0x30, 0x5d].take 6) = .ok v') ∨
+    (∃ c, parseTop envAp ([0x5b, 0x31, 0x65, 0x34, 0x30, 0x30, 0x5d].take 6)
+        = .err c ([0x5b, 0x31, 0x65, 0x34, 0x30, 0x30, 0x5d].take 6 : Bytes).length ∧ classify c = .eof) :=
+  c10_prefix_value_ap envAp rfl rfl _ 6 _ rfl
 
 end SJ.Props.C10
